@@ -111,7 +111,9 @@ class CoreTask:
         self.name = "validators:create.Validator.%s@draft%d" % (which, d)
 
     def cache_key(self):
-        return "core|%s|%s" % (self.name, self.timeout_ms)
+        from pyvc import driver
+        dh = driver.dep_hash(self.root, modules=("_utils", "_types", "exceptions", "validators"), drafts=(self.d,))
+        return "core|%s|%s|%s" % (self.name, self.timeout_ms, dh)
 
     def run(self):
         t0 = time.time()
